@@ -52,7 +52,7 @@ SAMPLES = {
 CANONICAL = {   # spellings that are fixed points of xsdata's strict type test (for C13)
     "string": ["abc", "x y", "Hello", "é", "007", "00501", "+2", "1.", "1e3", "0x1F", "TRUE", "P", "12:00", "2001-13-01"], "int": ["0", "-12", "2147483647"], "integer": ["0", "-1"], "decimal": ["1.5", "-0.001"],
     "double": ["1.5", "-2.25"], "boolean": ["true", "false"], "date": ["2001-10-26", "2001-10-26Z"], "dateTime": ["2001-10-26T21:32:52"],
-    "time": ["21:32:52"], "duration": ["P1Y", "PT1.5S"], "gYear": ["2001"], "hexBinary": ["0FB7"],
+    "time": ["21:32:52"], "duration": ["P1Y", "PT1.5S"], "gYear": ["2001"], "hexBinary": ["0FB7"], "float": ["1.5", "-2.5"],
 }
 
 
